@@ -76,6 +76,18 @@ def make_pool(r):
     P.add("Array[nd](m.s)", Array("length", np.array([1.0, 2.0, 4.0]), "m") * Array("time", np.array([1.0, 2.0, 4.0]), "s"))
     P.add("Array[list](m/s)", Array("length", [1.0, 2.0, 4.0], "m") / Array("time", [1.0, 2.0, 4.0], "s"))
     P.add("FixedArray[nd](m2)", FixedArray(3, "length", np.array([1.0, 2.0, 4.0]), "m") * FixedArray(3, "length", np.array([1.0, 2.0, 4.0]), "m"))
+    # derived quantities that only an explicit request builds: two categories of one quantity type in different units
+    from collections import OrderedDict
+
+    from barril.units import Quantity
+
+    mixed = Quantity.CreateDerived(OrderedDict([("length", ["m", 1]), ("diameter", ["cm", 1])]))
+    mixed2 = ObtainQuantity(OrderedDict([("depth", ["km", 2]), ("length", ["ft", -1])]))
+    P.add("Scalar(m.cm mixed)", Scalar(mixed, 100.0))
+    P.add("Array[nd](m.cm mixed)", Array(mixed, np.array([100.0, 200.0, 400.0])))
+    P.add("Array[list](m.cm mixed)", Array(mixed, [100.0, 200.0, 400.0]))
+    P.add("Scalar(km2/ft mixed)", Scalar(mixed2, 3.0))
+    P.add("Scalar(cm2)", Scalar("length", 100.0, "cm") * Scalar("length", 100.0, "cm"))
     P.add("Scalar(empty)", Scalar.CreateEmptyScalar(2.0))
     P.add("Array(empty)", Array.CreateEmptyArray([1.0, 2.0, 4.0]))
     P.add("FixedArray(empty)", FixedArray.CreateEmptyArray(3, [1.0, 2.0, 4.0]))
@@ -264,9 +276,16 @@ def one_history(ctx, gid, n_steps, mon):
                         anyu = r.choice(units_for(a) + ["m", "s"])
                         amount = r.choice([5.0, (5.0,), Scalar(a.GetQuantity(), 5.0), Scalar(5.0, anyu), (5.0, anyu), Scalar(5.0, anyu)])
                         res = a.ChangingIndex(i, amount, r.choice([True, False]))
-                    else:
+                    elif r.random() < 0.5:
                         desc = ("IndexAsScalar", type(a).__name__)
                         res = a.IndexAsScalar(i)
+                    else:
+                        # the public size check is a question, not a setter: asking it about other sizes changes nothing
+                        desc = ("CheckValues", type(a).__name__)
+                        k = r.choice([a.dimension, 2, 5, a.dimension + 1])
+                        a.CheckValues([1.0] * k, k)
+                        a.CheckValues([1.0] * a.dimension)
+                        res = a.CreateCopy()
                 elif isinstance(a, Array):
                     desc = ("sequence protocol", type(a).__name__)
                     res = [len(a), list(a), a[0:2]]
